@@ -110,11 +110,28 @@ class C05(Prop):
                 thr = round(p0 + rng.uni(-12.0, 4.0), 3)
                 scn['controls'].append({'name': name, 'kind': 'simple', 'priority': pr, 'cond': {'t': 'pressure', 'node': j['id'], 'rel': rng.pick(['<', '>', '<=', '>=']), 'thr': thr}, 'then': [act()]})
                 i += 1
+        # a valve commanded through its setting by some controls and through its status by another: one target, ordered by priority
+        # (all controls on that valve get distinct priorities, so the statement's conflict clause decides every meeting)
+        mixed = [l for l in scn['links'] if l['type'] == 'valve' and l.get('_c05_attr') == 'setting' and any(c['then'][0]['link'] == l['id'] for c in scn['controls'])]
+        if mixed and tanks and rng.chance(0.3):
+            l = rng.pick(mixed)
+            tk = rng.pick(tanks)
+            thr = round(tk['min'] + (tk['max'] - tk['min']) * rng.uni(0.15, 0.85), 4)
+            scn['controls'].append({'name': 'c%dm' % (len(scn['controls']) + 1), 'kind': 'simple', 'priority': 3,
+                                    'cond': {'t': 'level', 'tank': tk['id'], 'attr': 'level', 'rel': rng.pick(['<', '>']), 'thr': thr},
+                                    'then': [{'link': l['id'], 'attr': 'status', 'value': rng.pick(['CLOSED', 'CLOSED', 'OPEN'])}]})
+            own = [c for c in scn['controls'] if c['then'][0]['link'] == l['id']]
+            prs = [0, 1, 2, 3, 4, 5, 6]
+            rng.shuffle(prs)
+            for c_, p_ in zip(own[:7], prs):
+                c_['priority'] = p_
+            for c_ in own[7:]:
+                scn['controls'].remove(c_)
         # unrelated timed events on links that no conditional control commands (interleaving diversity only)
         commanded = set(c['then'][0]['link'] for c in scn['controls'])
         free = [l for l in gen.plain_pipes(scn) if l['id'] not in commanded]
         if free and rng.chance(0.3):
-            gen.add_simple_time_controls(rng, scn, rng.irange(1, 2), targets=free)
+            gen.add_simple_time_controls(rng, scn, rng.irange(1, 2), targets=free, p_priority=0.4)
         if rng.chance(0.1):
             o['trials'] = rng.pick([3, 5, 10])
         for l in scn['links']:
